@@ -632,8 +632,52 @@ def run_group_same_name(chk, spec):
 			chk.fail("per-group aggregates skip None (per operand)", f"group-reduce/value/same-name-operands/{spec['opn']}/{fn}", f"{spec!r}: row {r} key {gk!r}: got ({ga!r}, {gb!r}), expected ({ea!r}, {eb!r})")
 			return
 
+def run_apply_edits_argument(chk, spec):
+	"""an apply= callback that edits the list it is handed (fills the gaps before summing) edits ITS list: the table still holds the None cells, and a later
+	aggregate / window over the same keys still skips them"""
+	import warnings
+	keys = ["a", "b", "a", "b", "a"]
+	x = [1, None, 3, 4, None]
+	t = Table({"k": list(keys), "x": list(x)})
+	def fill_and_sum(vals):
+		for i, v in enumerate(vals):
+			if v is None:
+				vals[i] = 0
+		return sum(vals)
+	def collect(vals):
+		return vals
+	first = call(lambda: getattr(t, spec["first"])(over="k", apply={"s": ("x", fill_and_sum if spec["callback"] == "fill" else collect)}, **({"sum_over": "x"} if spec["with_builtin"] else {})))
+	if spec["callback"] == "collect" and first.ok:
+		# the caller edits what the callback handed back
+		col = first.value.cols()[-1] if not spec["with_builtin"] else first.value["s"]
+		for cell in col._underlying:
+			if isinstance(cell, list):
+				for i in range(len(cell)):
+					if cell[i] is None:
+						cell[i] = 0
+	chk.judged("group-reduce", ("apply-edits-argument", spec["first"], spec["second"], spec["callback"], spec["with_builtin"]))
+	if list(t["x"]._underlying) != x:
+		chk.fail("a None element is skipped, not rewritten", "group-reduce/apply-callback-edit-reached-the-table", f"{spec!r}: column x is now {list(t['x']._underlying)!r}", prop="C01")
+		return
+	second = call(lambda: getattr(t, spec["second"])(over="k", count_over="x", mean_over="x", min_over="x", sum_over="x"))
+	if not second.ok:
+		chk.fail("per-group aggregates skip None", f"group-reduce/raises/after-editing-callback/{type(second.exc).__name__}", f"{spec!r}: {second!r}")
+		return
+	names = second.value.column_names()
+	cols = {nm: list(c._underlying) for nm, c in zip(names, second.value.cols())}
+	per = {"a": [1, 3], "b": [4]}
+	kcol = cols["k"]
+	for r, kk in enumerate(kcol):
+		vs = per[kk]
+		exp = {"x_count": len(vs), "x_sum": sum(vs), "x_min": min(vs), "x_mean": sum(vs) / len(vs)}
+		for nm, e in exp.items():
+			g = cols[nm][r]
+			if g != e and not (isinstance(g, float) and abs(g - e) < 1e-12):
+				chk.fail("per-group aggregates skip None", f"group-reduce/value/after-editing-callback/{spec['second']}/{nm.split('_')[1]}", f"{spec!r}: key {kk!r}: {nm} = {g!r}, expected {e!r} (the table holds {x!r})")
+				return
 
-RUNNERS = {"group_same_name": run_group_same_name, "compare_none_scalar": run_compare_none_scalar, "group_reduce_count": run_group_reduce_count, "row_none": run_row_none, "arith_meta": run_arith_meta, "arith_none": run_arith_none, "compare_none": run_compare_none, "compare_meta": run_compare_meta, "reduce": run_reduce,
+
+RUNNERS = {"apply_edits_argument": run_apply_edits_argument, "group_same_name": run_group_same_name, "compare_none_scalar": run_compare_none_scalar, "group_reduce_count": run_group_reduce_count, "row_none": run_row_none, "arith_meta": run_arith_meta, "arith_none": run_arith_none, "compare_none": run_compare_none, "compare_meta": run_compare_meta, "reduce": run_reduce,
 	"group_reduce": run_group_reduce, "na": run_na}
 RUNNERS["recompute"] = recompute.runner("C06")
 
@@ -649,6 +693,11 @@ def all_masks(maxlen=5):
 def run(chk):
 	recompute.add_cases(chk, "C06")
 	rng = chk.rng
+	for first in ("aggregate", "window"):
+		for second in ("aggregate", "window"):
+			for callback in ("fill", "collect"):
+				for with_builtin in (False, True):
+					chk.case("apply_edits_argument", {"first": first, "second": second, "callback": callback, "with_builtin": with_builtin}, "apply-edits-argument")
 	for opn in ("window", "aggregate"):
 		for fn in ("sum", "count", "min", "max"):
 			for how in ("copy-written", "repeated-name-columns", "external-twins"):
